@@ -36,6 +36,7 @@ var c01Names = []string{
 
 type c01Gen struct {
 	benign bool // names are n<k> only (the shape stream)
+	xgo    int
 	r      *rng.R
 	used   map[string]bool // Go names taken (case-insensitive) in the current scope of uniqueness
 	names  []string        // every pool name placed in the spec
@@ -220,8 +221,9 @@ func (g *c01Gen) object(depth int, defs []string, withAddl bool) map[string]inte
 		if r.Chance(1, 8) && s["$ref"] == nil {
 			s["readOnly"] = true
 		}
-		if r.Chance(1, 8) && s["$ref"] == nil {
-			s["x-go-name"] = "Custom" + swag.ToGoName(fmt.Sprintf("n%d", r.Intn(100)))
+		if t, _ := s["type"].(string); r.Chance(1, 8) && s["$ref"] == nil && (t == "string" || t == "integer" || t == "number" || t == "boolean") {
+			g.xgo++
+			s["x-go-name"] = fmt.Sprintf("Custom%d%s", g.xgo, swag.ToGoName(n))
 			g.feats["x-go-name"] = true
 		}
 		props[n] = s
